@@ -39,8 +39,8 @@ CONFIG = dict(
     mode="accept",
     reset_prefix="reset",
     runs={
-        "quick": [dict(name="main", env={"VERIF_N": "4000"}, timeout=150),
-                  dict(name="p1", env={"VERIF_N": "700"}, seed_offset=500, procs=1, timeout=150)],
+        "quick": [dict(name="main", env={"VERIF_N": "2500"}, timeout=150),
+                  dict(name="p1", env={"VERIF_N": "500"}, seed_offset=500, procs=1, timeout=150)],
         "thorough": [dict(name="main", env={"VERIF_N": "40000"}, timeout=800),
                      dict(name="seed2", env={"VERIF_N": "25000"}, seed_offset=1000, timeout=800),
                      dict(name="seed3", env={"VERIF_N": "25000"}, seed_offset=2000, timeout=800),
@@ -61,6 +61,10 @@ CONFIG = dict(
          "queued behind it (the session must end or go on in order; the model closes the connection once the client's stream is consumed); "
          "payload sizes mixed within one burst (mostly small; 4000-4097 bytes around a 4 KB boundary, 5 KB, 8 KB, 64 KB) for pushes and responses, towards "
          "stalled and reading clients (ten such cases in the sweep of every run; ids sit in the payload head, independent of size); "
+         "the front-end held for 31.5-35 s of virtual time (longer than the 30 s request timeout + expiry tick) while a back-end's timers push to its clients "
+         "(the expired sys.pushmsg requests must not be delivered twice); handlers that Set a session value without pushing it (dirty BackSession) before "
+         "answering, followed at once by a push / a pipelined response of the same service; one PushMessageByIds to 257-344 connections of the front (four "
+         "observed clients listed #1, #256, #257 and last among unobserved real sessions) followed at once by a push/response to a late-listed connection; "
          "runs with GOMAXPROCS 8 and 1. Each op runs to quiescence (synctest.Wait) and reports the issue logs (per worker in Post "
          "order, per service goroutine in execution order) and per client the arrival stream; corpus (the D8 witness) first. Non-trivial = an op that "
          "produced issue or arrival records; distinct = distinct (op, observation) pairs.",
